@@ -259,7 +259,8 @@ class C03(Base):
             want_d = {a for a in m.addrs if subj.spec.conn[t[0]][a[0]]}
             got_d = {tuple(a) for a, v in info_d.items() if v}
             got_n = {tuple(a) for a, v in info_n.items() if v}
-            if got_d != want_d or got_n != set(want):
+            if ("discovered" in T.info and got_d != want_d) or \
+                    ("newly_discovered" in T.info and got_n != set(want)):
                 acc.violation("scan_info_mismatch",
                               mech_of(T, "scan_info_mismatch"),
                               {"info_discovered": sorted(got_d),
@@ -388,8 +389,9 @@ class C05(Base):
             return self.raised(T)
         d, sp, m = T.desc, T.subj.spec, T.subj.model
         cost = d["cost"]
+        has_val = "value" in T.info
         val = T.info.get("value", 0)
-        if not close(T.reward, val - cost):
+        if has_val and not close(T.reward, val - cost):
             acc.violation("reward_formula", mech_of(T, "reward_formula"),
                           {"reward": T.reward, "value": val, "cost": cost},
                           T)
@@ -410,12 +412,19 @@ class C05(Base):
             if T.P[3][i] and not T.S[3][i]:
                 newly.append(m.addrs[i])
                 gain += float(sp.hosts[m.addrs[i]]["discovery_value"])
-        if not close(val, gain):
+        if not close(T.reward, gain - cost):
+            acc.violation("reward_vs_state_change",
+                          mech_of(T, "reward_vs_state_change"),
+                          {"reward": T.reward, "value_of_state_change": gain,
+                           "cost": cost, "newly_rooted": rooted,
+                           "newly_discovered": newly}, T)
+        if has_val and not close(val, gain):
             acc.violation("value_mismatch", mech_of(T, "value_mismatch"),
                           {"info_value": val, "value_of_state_change": gain,
                            "newly_rooted": rooted, "newly_discovered": newly},
                           T)
-        if T.success == T.exp_success and not close(val, T.exp_value):
+        if has_val and T.success == T.exp_success and \
+                not close(val, T.exp_value):
             acc.violation("value_vs_model", mech_of(T, "value_vs_model"),
                           {"info_value": val, "model_value": T.exp_value},
                           T)
